@@ -15,7 +15,9 @@ LEVEL = "fault_enumeration"
 RULE = ("each case is one fresh interpreter: import of the shipped modules under a random module order with every "
         "declaration replayed as an assertion (name -> object, object reports name, symbol resolves), then a random "
         "history of definition calls (define / unit / derive / alias / scale / Prefix(name=) / Dimension.derive / "
-        "Dimension(name=) / equals) mixing anonymous-first and fresh construction, failing calls in every argument "
+        "Dimension(name=) / equals) mixing anonymous-first and fresh construction and symbols that were already resolved "
+        "earlier in the process as prefix + symbol (through resolve_symbol, Unit.parse, Quantity.parse, also between two "
+        "module imports), each declaration then looked up through registries, resolvers and the parser, failing calls in every argument "
         "position (duplicate name, duplicate symbol, spaced symbol, wrong type, self/zero equivalence) and failpoints "
         "on entry to the callee at real call boundaries, with a full registry snapshot before and after every call and "
         "a bijection sweep every 10 steps.  distinct = (API function, argument position at fault / failpoint site, "
@@ -50,7 +52,7 @@ def run(ctx):
         order = list(B.ALL_MODULES)
         rng.shuffle(order)
         specs.append({"seed": ctx.seed * 100003 + i, "steps": steps, "modules": "all", "order": order if i % 2 else None,
-                      "failpoints": True, "allow_dimension_define": (i % 4 == 3),
+                      "failpoints": True, "allow_dimension_define": (i % 4 == 3), "lookups_between_imports": (i % 3 != 0),
                       "force_failpoint_site": "Dimension.scale->conversions.translate" if i == 0 else None})
     with ThreadPoolExecutor(max_workers=14) as ex:
         results = list(ex.map(run_worker, specs))
